@@ -111,6 +111,17 @@ def fam_reports(tier, seed):
     # ... and the same with an objective that pushes the tasks to the right
     b.obj("ObjectiveTasksStartLatest", ind=b.ind("MinimumStartTime", name="MinimumStartTime", tasks=[a, c]), kind="maximize")
     ps.append(dict(b.done(), keep=True))
+    # a cumulative worker of size 10, all its units in use (two-digit unit numbers in the generated names)
+    b = PB(1, tag="report-cumulative-size-10")
+    cu = b.cumul("M", 10)
+    w = b.worker("Op")
+    for i in range(10):
+        t = b.task(f"T{i + 1}", "F", dur=1)
+        b.require(t, cumul=cu)
+    q = b.done()
+    q["keep"] = True
+    q["default_only"] = True
+    ps.append(q)
     if not full:
-        ps = sample(rng, ps, 21)
+        ps = sample(rng, ps, 22)
     return number(ps)
